@@ -195,11 +195,44 @@ def check_model_total(ctx, fi, total):
                 return False, bad or s_
             return False, s_
         return True, None
+    def flow_total(stmts, state, published):
+        """must-analysis along the structured paths: state[name] is True when the object bound to name certainly carries `total`"""
+        for st_ in stmts:
+            if isinstance(st_, ast.Assign) and len(st_.targets) == 1:
+                tg, v = st_.targets[0], st_.value
+                if isinstance(tg, ast.Name):
+                    if isinstance(v, ast.Call) and isinstance(v.func, ast.Name) and (v.func.id in ('GraphicalModel', 'RegionGraph', 'FactorGraph')
+                                                                                     or v.func.id in table_ctor_names):
+                        state[tg.id] = True
+                    elif isinstance(v, ast.Name):
+                        state[tg.id] = state.get(v.id, False)
+                    else:
+                        state[tg.id] = False
+                elif isinstance(tg, ast.Attribute) and tg.attr == 'total' and isinstance(tg.value, ast.Name) and U(v) == total:
+                    state[tg.value.id] = True
+                elif U(tg) == 'self.model' and isinstance(v, ast.Name):
+                    published.append((st_, state.get(v.id, False)))
+            elif isinstance(st_, ast.If):
+                a, b = dict(state), dict(state)
+                flow_total(st_.body, a, published)
+                flow_total(st_.orelse, b, published)
+                state.clear()
+                for k in set(a) | set(b):
+                    state[k] = a.get(k, False) and b.get(k, False)
+            elif isinstance(st_, (ast.For, ast.While)):
+                flow_total(st_.body, dict(state), published)
+            elif isinstance(st_, (ast.With, ast.Try)):
+                flow_total(st_.body, state, published)
+    published = []
+    flow_total(fi.body, {}, published)
+    flow_ok = {id(s_): ok_ for s_, ok_ in published}
     pub = [s_ for s_ in walk_shallow(fi.node) if isinstance(s_, ast.Assign) and any(U(t) == 'self.model' for t in s_.targets)]
     for p_ in pub:
         if not isinstance(p_.value, ast.Name):
             continue
         ok, bad = built_with_total(p_.value.id, frozenset())
+        if not ok and flow_ok.get(id(p_)):
+            ok, bad = True, None          # on every path to the publication the object was constructed with, or given, the total
         where = bad or p_
         ctx.ob('pass-through', fi, where, ok,
                'the model published as self.model must be built with `%s` (or be given `.total = %s`); `%s` is neither: a reused '
